@@ -7,7 +7,13 @@ RULE = ("case = (matrix with 1..4 frames with unique names (some names prefixes/
         "dictionaries containing used and unused names, equal names on several levels; a sequence of 1..3 operations "
         "delete_zero_signals / delete_obsolete_defines / del_signal(glob) / rename_signal(name, prefix*, *suffix) / del_frame / "
         "rename_frame / del_signal_attributes / del_frame_attributes); the state after every operation is observed. "
-        "Attribute values include the empty text, \"0\" and \"False\". Non-trivial = distinct case in which at least one operation changed the matrix.")
+        "Attribute values include the empty text, \"0\" and \"False\". A second stream (near-miss spellings) has matrices in which "
+        "frame, signal and attribute names also occur in other letter cases (alone or next to the original), and 1..4 operations whose "
+        "names and patterns are spellings close to a name that is present (other letter case, blank before/after, '-' for '_', one "
+        "character less or more) next to exact and absent ones; frames and signals are addressed by name or through the object "
+        "(del_frame(Frame), rename_frame(Frame, ..), rename_signal(Signal, ..)); read-only lookups by these spellings (frame_by_name, "
+        "glob_frames, signal_by_name, glob_signals) run before every operation; a sweep applies every such spelling of every pool "
+        "name to every name-taking operation. Non-trivial = distinct case in which at least one operation changed the matrix.")
 PARTIAL = ["attribute values and definition bodies are opaque strings here; ENUM conversion belongs to C05"]
 ASSUMPTIONS = ["frame names unique in the matrix and signal names unique within a frame (the Spec is asserted only on such states)",
                "patterns and names are non-empty and carry at most one '*' at the beginning or the end"]
@@ -21,9 +27,9 @@ SIG_PATS = ["sig*", "*sig", "s?", "*", "speed*", "*kmh", "x*", "*x", "s[12]", "c
 FRAME_PATS = ["Msg*", "*Msg", "Diag_*", "*Ext", "Status", "Req", "*Req", "Status*", "nomatch", "Msg"]
 
 
-def rand_attrs(rng):
+def rand_attrs(rng, pool=ATTRS):
     # (an attribute may be set to the empty text, to "0" or to "False": it is set all the same)
-    return [[a, rng.choice(["v0", "v1", "v2", "", "0", "False"])] for a in ATTRS if rng.random() < 0.3]
+    return [[a, rng.choice(["v0", "v1", "v2", "", "0", "False"])] for a in pool if rng.random() < 0.3]
 
 
 def gen_matrix(rng):
@@ -62,6 +68,144 @@ def gen_op(rng):
     return ["delFrameAttrs", rng.sample(ATTRS, rng.randint(1, 3))]
 
 
+# ---- near-miss spellings: names are case sensitive identifiers, an operation addresses the objects that carry exactly the given name ----
+ATTRS_NEAR = ["GenA", "gena", "GENA", "Cycle", "cycle", "Note", "A", "a"]
+
+
+def spellings(name):
+    """Every near-miss spelling of a name or pattern (a '*' at the beginning / the end stays where it is); never the name itself, never empty."""
+    left = "*" if name.startswith("*") and len(name) > 1 else ""
+    right = "*" if name.endswith("*") and len(name) > 1 else ""
+    core = name[len(left):len(name) - len(right)]
+    out = [core.lower(), core.upper(), core.swapcase(), core.capitalize(), core[:1].swapcase() + core[1:], core + " ", " " + core,
+           core.replace("_", "-"), core.replace("_", ""), core[:-1], core + core[-1:]]
+    res = []
+    for v in out:
+        v = left + v + right
+        if v.strip("*") and v != name and v not in res:
+            res.append(v)
+    return res
+
+
+def near(name, rng):
+    vs = spellings(name)
+    return rng.choice(vs) if vs else name
+
+
+def case_variant(name, rng):
+    vs = [v for v in (name.lower(), name.upper(), name.swapcase(), name.capitalize()) if v != name]
+    return rng.choice(vs) if vs else name
+
+
+def names_near(rng, pool, lo, hi, p):
+    """lo..hi names of the pool, some of them joined or replaced by the same name in another letter case (all distinct)."""
+    out = []
+    for n in rng.sample(pool, rng.randint(lo, hi)):
+        r = rng.random()
+        v = case_variant(n, rng)
+        for x in ([n, v] if r < p else [v] if r < p + 0.15 else [n]):
+            if x not in out:
+                out.append(x)
+    rng.shuffle(out)
+    return out
+
+
+def gen_matrix_near(rng):
+    frames = []
+    for fname in names_near(rng, FNAMES, 1, 3, 0.4):
+        sigs = [[sname, 0 if rng.random() < 0.2 else rng.randint(1, 16), rand_attrs(rng, ATTRS_NEAR)] for sname in names_near(rng, SNAMES, 0, 4, 0.3)]
+        frames.append([fname, rand_attrs(rng, ATTRS_NEAR), sigs])
+    ecus = [["E%d" % k, rand_attrs(rng, ATTRS_NEAR)] for k in range(rng.randint(0, 2))]
+    pick = lambda: [a for a in ATTRS_NEAR if rng.random() < 0.6]  # noqa
+    return {"frames": frames, "ecus": ecus, "fd": pick(), "ed": pick(), "sd": pick()}
+
+
+def present(m):
+    fn = [f[0] for f in m["frames"]]
+    sn = sorted({s[0] for f in m["frames"] for s in f[2]})
+    an = sorted({a[0] for f in m["frames"] for a in f[1]} | {a[0] for f in m["frames"] for s in f[2] for a in s[2]} | set(m["fd"]) | set(m["sd"]))
+    return fn, sn, an
+
+
+def target(rng, have, pool, via=()):
+    """a spelling close to a present name / a present name / a name or pattern of the pool (or close to one);
+    mostly a present name when the object is to be passed instead of the name"""
+    r = rng.random()
+    if via and have and rng.random() < 0.7:
+        return rng.choice(have)
+    if have and r < 0.55:
+        return near(rng.choice(have), rng)
+    if have and r < 0.75:
+        return rng.choice(have)
+    return rng.choice(pool) if r < 0.9 else near(rng.choice(pool), rng)
+
+
+def as_pattern(rng, name):
+    """name, or a prefix* / *suffix pattern cut out of it"""
+    r = rng.random()
+    k = rng.randint(1, len(name))
+    return name[:k] + "*" if r < 0.25 else "*" + name[-k:] if r < 0.5 else name
+
+
+def gen_op_near(rng, m):
+    fn, sn, an = present(m)
+    via = ["obj"] if rng.random() < 0.3 else []
+    k = rng.random()
+    if k < 0.30:
+        return ["delFrame", target(rng, fn, FNAMES, via)] + via
+    if k < 0.46:
+        old = target(rng, fn, FRAME_PATS, via)
+        new = rng.choice(["New", "N", "Msg", "X_", "msg"] + [case_variant(n, rng) for n in fn[:1]])
+        return ["renameFrame", old if "*" in old or via else as_pattern(rng, old), new] + via
+    if k < 0.62:
+        return ["delSignal", target(rng, sn, SIG_PATS)]
+    if k < 0.78:
+        old = target(rng, sn, ["sig*", "*sig", "speed*", "*kmh", "x*", "*x", "s1*", "*_a", "cnt", "x", "sig", "s1", "nomatch"], via)
+        new = rng.choice(["new", "n", "sig", "Z_", "SIG"] + [case_variant(n, rng) for n in sn[:1]])
+        return ["renameSignal", old if "*" in old or via else as_pattern(rng, old), new] + via
+    if k < 0.86:
+        return ["delSigAttrs", [target(rng, an, ATTRS_NEAR) for _ in range(rng.randint(1, 3))]]
+    if k < 0.94:
+        return ["delFrameAttrs", [target(rng, an, ATTRS_NEAR) for _ in range(rng.randint(1, 3))]]
+    return ["zero"] if k < 0.97 else ["obsolete"]
+
+
+def near_case(rng, m=None):
+    m = gen_matrix_near(rng) if m is None else m
+    ops = [gen_op_near(rng, m) for _ in range(rng.randint(1, 4))]
+    if rng.random() < 0.3:
+        # the same operation again with another spelling of its name (delete 'gateway', then 'Gateway')
+        o = rng.choice(ops)
+        if len(o) > 1 and isinstance(o[1], str):
+            ops.append([o[0], near(o[1], rng)] + o[2:])
+    look = [o[1] for o in ops if len(o) > 1 and isinstance(o[1], str)] if rng.random() < 0.5 else []
+    return {"op": "bulk", "c": {"m": m, "ops": ops, "look": look}}
+
+
+def sweep_near():
+    """every near-miss spelling of every pool name, for every operation that takes a name"""
+    empty = {"ecus": [], "fd": [], "ed": [], "sd": []}
+    for i, base in enumerate(FNAMES):
+        other = FNAMES[(i + 1) % len(FNAMES)]
+        m = dict(empty, frames=[[other, [], [["x", 4, []]]], [base, [], [["sig", 8, []]]]])
+        for v in spellings(base):
+            for via in ([], ["obj"]):
+                yield {"op": "bulk", "c": {"m": m, "ops": [["delFrame", v] + via], "look": [v]}}
+                yield {"op": "bulk", "c": {"m": m, "ops": [["renameFrame", v, "New"] + via, ["delFrame", base]]}}
+    for i, base in enumerate(SNAMES):
+        other = SNAMES[(i + 1) % len(SNAMES)]
+        m = dict(empty, frames=[["F", [], [[other, 4, []], [base, 8, []]]], ["G", [], [[base, 2, []]]]])
+        for v in spellings(base):
+            yield {"op": "bulk", "c": {"m": m, "ops": [["delSignal", v]], "look": [v]}}
+            yield {"op": "bulk", "c": {"m": m, "ops": [["renameSignal", v, "new"], ["delSignal", base]]}}
+            yield {"op": "bulk", "c": {"m": m, "ops": [["renameSignal", v, "new", "obj"]]}}
+    for a in ATTRS:
+        m = {"frames": [["F", [[a, "v0"]], [["s", 4, [[a, "v1"]]]]], ["G", [[a, "v2"]], []]], "ecus": [], "fd": [a], "ed": [], "sd": [a]}
+        for v in spellings(a):
+            yield {"op": "bulk", "c": {"m": m, "ops": [["delSigAttrs", [v]], ["delFrameAttrs", [v]]]}}
+            yield {"op": "bulk", "c": {"m": m, "ops": [["delFrameAttrs", [v, a]], ["delSigAttrs", [v]]]}}
+
+
 def gen(rng, tier, shard, nshards):
     total = {"quick": 8000, "thorough": 120000}[tier] // nshards
     for _ in range(total):
@@ -71,11 +215,18 @@ def gen(rng, tier, shard, nshards):
         for mask in range(64):
             sigs = [["s%d" % i, 0 if (mask >> i) & 1 else 4, []] for i in range(6)]
             yield {"op": "bulk", "c": {"m": {"frames": [["F", [], sigs]], "ecus": [], "fd": [], "ed": [], "sd": []}, "ops": [["zero"]]}}
+    # near-miss spellings (drawn after the stream above, which is unchanged)
+    for _ in range({"quick": 2400, "thorough": 36000}[tier] // nshards):
+        yield near_case(rng)
+    if shard == 1 % nshards:
+        for c in sweep_near():
+            yield c
 
 
 def neighbours(case, rng, shard, nshards):
     for _ in range(200 // nshards + 1):
         yield {"op": "bulk", "c": {"m": case["c"]["m"], "ops": [gen_op(rng) for _ in range(rng.randint(1, 2))]}}
+        yield near_case(rng, case["c"]["m"])
 
 
 def build(m):
@@ -111,11 +262,40 @@ def snapshot(db):
             "fd": list(db.frame_defines.keys()), "ed": list(db.ecu_defines.keys()), "sd": list(db.signal_defines.keys())}
 
 
+def lookups(db, names):
+    """read-only lookups of the public API; they must leave the matrix as it is (the next snapshot shows it)"""
+    for n in names:
+        db.frame_by_name(n)
+        db.glob_frames(n)
+        for f in db.frames:
+            f.signal_by_name(n)
+            f.glob_signals(n)
+
+
+def frame_object(db, name):
+    """the frame that carries exactly this name (found without the library's lookups), else the name itself"""
+    for f in db.frames:
+        if f.name == name:
+            return f
+    return name
+
+
+def signal_object(db, name):
+    for f in db.frames:
+        for s in f.signals:
+            if s.name == name:
+                return s
+    return name
+
+
 def observe(case):
     db = build(case["c"]["m"])
+    look = case["c"].get("look", [])
     states = []
     for op in case["c"]["ops"]:
         k = op[0]
+        obj = op[-1] == "obj" and len(op) > (3 if k.startswith("rename") else 2)
+        lookups(db, look)
         if k == "zero":
             db.delete_zero_signals()
         elif k == "obsolete":
@@ -123,11 +303,11 @@ def observe(case):
         elif k == "delSignal":
             db.del_signal(op[1])
         elif k == "renameSignal":
-            db.rename_signal(op[1], op[2])
+            db.rename_signal(signal_object(db, op[1]) if obj else op[1], op[2])
         elif k == "delFrame":
-            db.del_frame(op[1])
+            db.del_frame(frame_object(db, op[1]) if obj else op[1])
         elif k == "renameFrame":
-            db.rename_frame(op[1], op[2])
+            db.rename_frame(frame_object(db, op[1]) if obj else op[1], op[2])
         elif k == "delSigAttrs":
             db.del_signal_attributes(op[1])
         elif k == "delFrameAttrs":
@@ -146,7 +326,16 @@ def features(case, impl):
         yield "%s:%s" % (op[0], "changed" if st != prev else "noop")
         if op[0] in ("renameSignal", "renameFrame"):
             yield op[0] + (":prefix" if op[1].endswith("*") else ":suffix" if op[1].startswith("*") else ":exact")
+        if len(op) > 1 and isinstance(op[1], str):
+            have = [f[0] for f in prev["frames"]] if "Frame" in op[0] else [s[0] for f in prev["frames"] for s in f[2]]
+            core = op[1].strip("*")
+            if core not in have and core.lower() in [h.lower() for h in have]:
+                yield op[0] + ":name differs in letter case only from a present one"
+            if op[-1] == "obj" and op[1] in have:
+                yield op[0] + ":addressed by object"
         prev = st
+    if case["c"].get("look"):
+        yield "lookups before every operation"
     zs = [sum(1 for s in f[2] if s[1] == 0) for f in case["c"]["m"]["frames"]]
     if any(z >= 2 for z in zs):
         yield "frame with >=2 zero-width signals"
@@ -166,12 +355,12 @@ def shrink_candidates(case):
     ops = c["ops"]
     for i in range(len(ops)):
         if len(ops) > 1:
-            yield {"op": "bulk", "c": {"m": c["m"], "ops": ops[:i] + ops[i + 1:]}}
+            yield {"op": "bulk", "c": dict(c, ops=ops[:i] + ops[i + 1:])}
     m = c["m"]
     for i in range(len(m["frames"])):
         if len(m["frames"]) > 1:
-            yield {"op": "bulk", "c": {"m": dict(m, frames=m["frames"][:i] + m["frames"][i + 1:]), "ops": ops}}
+            yield {"op": "bulk", "c": dict(c, m=dict(m, frames=m["frames"][:i] + m["frames"][i + 1:]))}
         f = m["frames"][i]
         for j in range(len(f[2])):
             nf = [f[0], f[1], f[2][:j] + f[2][j + 1:]]
-            yield {"op": "bulk", "c": {"m": dict(m, frames=m["frames"][:i] + [nf] + m["frames"][i + 1:]), "ops": ops}}
+            yield {"op": "bulk", "c": dict(c, m=dict(m, frames=m["frames"][:i] + [nf] + m["frames"][i + 1:]))}
